@@ -95,6 +95,9 @@ class C09(Check):
         for bpt in self.bpts(tier):
             for c in range(chunks):
                 out.append((bpt, c, chunks, tier))
+        from mc.checks import c03_cli
+
+        out += c03_cli.shards(tier)
         return out
 
     # ------------------------------------------------------------------
@@ -221,6 +224,10 @@ class C09(Check):
         ctx.outcome(h64(pv.out_spec(out)))
 
     def run_shard(self, shard, ctx):
+        if shard[0] == "cli":
+            from mc.checks import c03_cli
+
+            return c03_cli.run_shard(self, shard, ctx, validate_only=True, extra=c03_cli.check_c09_files)
         bpt, chunk, chunks, tier = shard
         full = tier == "thorough"
         e = err_len(bpt)
@@ -266,6 +273,10 @@ class C09(Check):
         )
 
     def replay(self, case, ctx):
+        if case[0] == "cli":
+            from mc.checks import c03_cli
+
+            return c03_cli.replay(self, case, ctx, validate_only=True, extra=c03_cli.check_c09_files)
         inp, pvspec = case
         self.run_case(pv.tuplify(inp), (pvspec[0], pv.tuplify(pvspec[1])), ctx)
 
